@@ -382,9 +382,9 @@ fn real_main() {
                 .par_iter()
                 .flat_map(|i| {
                     let mut v = vec![];
-                    for (ver, span) in [(4u16, false), (5, false), (4, true), (5, true)] {
+                    for (ver, span, nested) in [(4u16, false, false), (5, false, false), (4, true, false), (5, true, false), (4, false, true), (5, true, true)] {
                         for variant in ["plain", "gc", "edited"] {
-                            if let Some(c) = cases::dwarf_case(i, ver, span, variant) {
+                            if let Some(c) = cases::dwarf_case_full(i, ver, span, nested, variant) {
                                 v.push(c);
                             }
                         }
